@@ -63,7 +63,7 @@ func TestC04SimultaneousFailures(t *testing.T) {
 	if lab.Replaying() {
 		t.Skip()
 	}
-	rounds := lab.Share(lab.Scale(6000, 200000))
+	rounds := lab.Share(lab.Scale(6000, 80000))
 	level := []string{"warn", "info", "fatal", "debug"}[lab.Shard()%4]
 	if devnull, err := os.OpenFile(os.DevNull, os.O_WRONLY, 0); err == nil {
 		// Helios's logger writes to whatever os.Stdout is when logging.Init runs
